@@ -20,7 +20,14 @@ class _Cexptrk_Potential_Function(object):
     local_symbol_table = cexprtk.Symbol_Table({}, add_constants = True)
     parameter_names = self._potential_form_tuple.signature.parameter_names
     for pn in parameter_names:
-      local_symbol_table.variables[pn] = 1.0
+      try:
+        local_symbol_table.variables[pn] = 1.0
+      except KeyError as e:
+        # Raised by the expression library for names it cannot use as variables: its built-in constants
+        # (pi, epsilon, inf), its functions and keywords (min, exp, if ...) and anything that isn't an identifier.
+        msg = "In potential-form '{label}': '{name}' cannot be used as a parameter name: {reason}".format(
+          label = self._potential_form_tuple.signature.label, name = pn, reason = e.args[0] if e.args else str(e))
+        raise Potential_Form_Exception(msg)
     return local_symbol_table
 
   def register_function(self, func):
